@@ -58,7 +58,7 @@ static std::string write_file(const std::string& content, const char* tag)
 // direct view of the loaded table when the member is reachable (compiled with -fno-access-control);
 // falls back to the public API only if the class is refactored
 template <class T>
-static auto table_of(const T& b, int) -> decltype(b._hashmap, (const std::map<uint64_t, std::vector<std::pair<Move, int>>>*)nullptr)
+static auto table_of(const T& b, int) -> decltype(&b._hashmap)
 {
     return &b._hashmap;
 }
@@ -181,7 +181,7 @@ static void mode_files(bool quick, int shard, int nsh)
                             continue;
                         }
                         for (size_t i = 0; i < kv.second.size(); ++i)
-                            if (it->second[i].second != kv.second[i].second)
+                            if (int(it->second[i].second) != int(kv.second[i].second))
                                 R.violation("C19:table:weight_mismatch" + tcls, w().u("key", kv.first));
                     }
                 }
@@ -213,7 +213,7 @@ static void mode_decode()
 {
     mc::Subspace sub;
     sub.name = "move decoding";
-    sub.bound = "all 65536 move codes (promotion field 0..4 checked, 5..7 outside the format) x 4 positions (king / rook on e1, e8)";
+    sub.bound = "all 65536 move codes (promotion field 0..4 checked, 5..7 outside the format) x 4 positions (king / rook on e1, e8); 8 castling codes x 16 rights subsets x side to move";
     std::string content;
     for (int code = 0; code < 65536; ++code) content += bytes_of(Rec{uint64_t(code) + 1, uint16_t(code), 1});
     std::string path = write_file(content, "decode");
@@ -254,6 +254,48 @@ static void mode_decode()
             }
             if (castling(want) != NO_CASTLING) R.count("castling_decodes");
         }
+    }
+    // castling codes under every subset of castling rights: the move is castling whenever castling is
+    // legal for the side to move (a well-formed book only holds legal moves)
+    {
+        std::string content2;
+        int codes[8][2] = {{4, 7}, {4, 0}, {60, 63}, {60, 56}, {4, 6}, {4, 2}, {60, 62}, {60, 58}};
+        for (int i = 0; i < 8; ++i) content2 += bytes_of(Rec{uint64_t(1000 + i), code_of(codes[i][0], codes[i][1], 0), 1});
+        std::string path2 = write_file(content2, "decode2");
+        PolyglotBook book2(path2, 1);
+        for (int cr = 0; cr < 16; ++cr)
+            for (int stm = 0; stm < 2; ++stm)
+            {
+                ref::Pos p;
+                ref::parse_fen("r3k2r/8/8/8/8/8/8/R3K2R w - - 0 1", p);
+                p.cr = cr;
+                p.stm = stm;
+                std::vector<ref::Mv> lm;
+                ref::gen_legal(p, lm);
+                Position pos(ref::fen(p));
+                for (int i = 0; i < 8; ++i)
+                {
+                    bool white_code = codes[i][0] == 4;
+                    if (white_code != (stm == 0)) continue;
+                    bool kside = (i % 2) == 0;
+                    bool legal = false;
+                    for (auto& m : lm)
+                        if (m.flags & (kside ? ref::F_CASTLE_K : ref::F_CASTLE_Q)) legal = true;
+                    if (!legal)
+                    {
+                        R.count("castling_codes_not_legal_skipped");
+                        continue;
+                    }
+                    Move want = create_castling(kside ? KING_CASTLING : QUEEN_CASTLING);
+                    Move got = book2.get_best_move(uint64_t(1000 + i), pos), got2 = book2.get_random_move(uint64_t(1000 + i), pos);
+                    sub.states++;
+                    sub.transitions += 2;
+                    R.count("castling_decodes");
+                    if (got != want || got2 != want)
+                        R.violation("C19:decode:castling:rights_subset", mc::JObj().s("fen", ref::fen(p)).n("from", codes[i][0]).n("to", codes[i][1]).n("engine", got).n("expected", want));
+                }
+            }
+        unlink(path2.c_str());
     }
     R.outcome("decode");
     R.sample(mc::JObj().n("code", code_of(4, 7, 0)).s("fen", fens[0]).s("meaning", "e1h1 = white short castling").str());
